@@ -90,6 +90,7 @@ fn gen_sweep_session(seed: u64, run: u64) -> Session {
         ops,
         crashes: Vec::new(),
         decisions: None,
+        hold: None,
         meta: json!({"sweep": true, "base": base}),
     }
 }
@@ -213,6 +214,7 @@ pub fn gen_session(seed: u64, run: u64, thorough: bool) -> Session {
         ops,
         crashes: Vec::new(),
         decisions: None,
+        hold: None,
         meta: json!({}),
     }
 }
